@@ -193,7 +193,7 @@ func (d *Decoder) readTypedMap() (interface{}, error) {
 			return nil, err
 		}
 		if mType.Kind() == reflect.Map {
-			mValue.SetMapIndex(EnsureRawValue(key), EnsureRawValue(value))
+			setMapEntry(mValue, key, value)
 		} else {
 			fieldName, ok := key.(string)
 			if !ok {
@@ -287,8 +287,19 @@ func (d *Decoder) readMap(dest reflect.Value) error {
 		if err != nil {
 			return err
 		}
-		mPtrValue.Elem().SetMapIndex(EnsureRawValue(key), EnsureRawValue(vl))
+		setMapEntry(mPtrValue.Elem(), key, vl)
 	}
 	SetValue(dest, mPtrValue)
 	return nil
+}
+
+// setMapEntry stores a decoded entry in m, converting key and value to the key and element
+// types of m (int32 to int, *A to A, ...); a null value is stored as the zero value of the
+// element type instead of deleting the key.
+func setMapEntry(m reflect.Value, key, value interface{}) {
+	k := reflect.New(m.Type().Key()).Elem()
+	SetValue(k, EnsureRawValue(key))
+	v := reflect.New(m.Type().Elem()).Elem()
+	SetValue(v, EnsureRawValue(value))
+	m.SetMapIndex(k, v)
 }
